@@ -103,7 +103,16 @@ fn c20_body(cfg: Cfg, stats: StdArc<StdMutex<Stats>>) -> impl Fn() + Send + Sync
             }
             // templates carry the version at the time they are (lazily) loaded
             let v3 = v2.clone();
-            env.set_loader(move |_name| Ok(Some(format!("{}", v3.load(Ordering::SeqCst)))));
+            // "late" comes into existence with version 1, "gone" disappears with it: what an environment
+            // answered before a request (not found / found) is as stale as a template's content
+            env.set_loader(move |name| {
+                let v = v3.load(Ordering::SeqCst);
+                Ok(match name {
+                    "late" if v == 0 => None,
+                    "gone" if v >= 1 => None,
+                    _ => Some(format!("{}", v)),
+                })
+            });
             if cfg.variant == Variant::FreshnessCallback {
                 let (ff3, ct3) = (ff2.clone(), ct2.clone());
                 notifier.set_callback(move || {
@@ -134,6 +143,9 @@ fn c20_body(cfg: Cfg, stats: StdArc<StdMutex<Stats>>) -> impl Fn() + Send + Sync
         if cfg.prewarm {
             // start from a non-initial state: an environment from version 0 is cached already
             let g = reloader.acquire_env().expect("creator does not fail");
+            // ... which has answered lookups already: one that was not found, one that was
+            let _ = g.get_template("late");
+            let _ = g.get_template("gone");
             drop(g);
         }
         let mut handles = vec![];
@@ -177,6 +189,13 @@ fn c20_body(cfg: Cfg, stats: StdArc<StdMutex<Stats>>) -> impl Fn() + Send + Sync
                     let s = read(&guard);
                     let ident = &*guard as *const Environment<'static> as usize;
                     assert!(s >= r, "LOST RELOAD: request #{} had returned before acquire_env() was called but the environment handed out is from version {}", r, s);
+                    // templates that appeared or disappeared before the request was made
+                    let late: Option<usize> = guard.get_template("late").ok().map(|t| t.render(()).unwrap().parse().unwrap());
+                    let gone: Option<usize> = guard.get_template("gone").ok().map(|t| t.render(()).unwrap().parse().unwrap());
+                    if r >= 1 {
+                        assert!(matches!(late, Some(x) if x >= r), "LOST RELOAD: request #{} had returned before acquire_env() was called but a template that exists since version 1 is answered with {:?}", r, late);
+                        assert!(gone.is_none(), "LOST RELOAD: request #{} had returned before acquire_env() was called but a template that is gone since version 1 is still served (from version {:?})", r, gone);
+                    }
                     // while the guard is held the environment is not replaced
                     shuttle::thread::yield_now();
                     let s2 = read(&guard);
